@@ -71,6 +71,51 @@ def _separator(fn):
     return joins[0].func.value.value, joins[0].lineno
 
 
+COMPOUND = "autofit/mapper/prior/arithmetic/compound.py"
+MODEL_OBJECT = "autofit/mapper/model_object.py"
+LOG_GAUSSIAN = "autofit/mapper/prior/log_gaussian.py"
+
+
+def _class(tree, name):
+    hits = [n for n in tree.body if isinstance(n, ast.ClassDef) and n.name == name]
+    if len(hits) != 1:
+        raise T.TranslationError("expected exactly one class %s" % name)
+    return hits[0]
+
+
+def _identifier_fields(cls):
+    """__identifier_fields__ declared in the class body: tuple of names, or None when absent"""
+    hits = [n for n in cls.body if isinstance(n, ast.Assign) and len(n.targets) == 1
+            and isinstance(n.targets[0], ast.Name) and n.targets[0].id == "__identifier_fields__"]
+    if not hits:
+        return None
+    if len(hits) != 1 or not isinstance(hits[0].value, ast.Tuple) or not all(
+            isinstance(e, ast.Constant) and isinstance(e.value, str) for e in hits[0].value.elts):
+        raise T.TranslationError("__identifier_fields__ of %s is not a literal tuple of names" % cls.name)
+    return [e.value for e in hits[0].value.elts]
+
+
+def _facts(repo):
+    """facts about neighbouring code that the model depends on (they change when a recorded defect is repaired)"""
+    ctree, _ = T.parse_file(repo, COMPOUND)
+    compound = _identifier_fields(_class(ctree, "CompoundPrior"))
+    modified = _identifier_fields(_class(ctree, "ModifiedPrior"))
+    mtree, _ = T.parse_file(repo, MODEL_OBJECT)
+    fd = T.find_function(mtree, "ModelObject.from_dict")
+    restores = [n for n in ast.walk(fd) if isinstance(n, ast.Assign) and len(n.targets) == 1
+                and T._dotted(n.targets[0]) == "instance.item_number"]
+    if len(restores) > 1:
+        raise T.TranslationError("more than one assignment to instance.item_number in ModelObject.from_dict")
+    ltree, _ = T.parse_file(repo, LOG_GAUSSIAN)
+    lg = _class(ltree, "LogGaussianPrior")
+    has_dict = any(isinstance(n, ast.FunctionDef) and n.name == "dict" for n in lg.body)
+    return compound, modified, bool(restores), has_dict
+
+
+def _coq_opt_names(names):
+    return "None" if names is None else "(Some [%s])" % "; ".join(_coq_string(n) for n in names)
+
+
 def regenerate(repo=None):
     repo = repo or common.REPO
     tree, src = T.parse_file(repo, IDENT)
@@ -89,6 +134,7 @@ def regenerate(repo=None):
         raise T.TranslationError("rounding is not wrapped in `try: ... except OverflowError: pass`")
     prefix, names, kf_line = _key_filter(fn)
     sep, sep_line = _separator(T.find_function(tree, "Identifier.__str__"))
+    compound, modified, restores, has_dict = _facts(repo)
     h = res.hex()
     lines = [
         "(* GENERATED by harness/vcheck/c07.py from %s -- do not edit. *)" % IDENT,
@@ -112,6 +158,15 @@ def regenerate(repo=None):
         "(* %s line %d: separator of the join in Identifier.__str__ *)" % (IDENT, sep_line),
         "Definition join_sep : string := %s." % _coq_string(sep),
         "",
+        "(* facts about neighbouring code (%s, %s, %s) *)" % (COMPOUND, MODEL_OBJECT, LOG_GAUSSIAN),
+        "(* CompoundPrior.__identifier_fields__ / ModifiedPrior.__identifier_fields__ when declared *)",
+        "Definition compound_idf : option (list string) := %s." % _coq_opt_names(compound),
+        "Definition modified_idf : option (list string) := %s." % _coq_opt_names(modified),
+        "(* ModelObject.from_dict assigns instance.item_number *)",
+        "Definition reload_restores_item_number : bool := %s." % ("true" if restores else "false"),
+        "(* LogGaussianPrior defines its own dict() *)",
+        "Definition log_gaussian_dict : bool := %s." % ("true" if has_dict else "false"),
+        "",
     ]
     text = "\n".join(lines)
     out = os.path.join(common.COQ, "C07", "Gen.v")
@@ -125,6 +180,8 @@ def regenerate(repo=None):
         "round8": {"source": info["source"], "line": info["line"]},
         "key_filter": {"source": "startswith(%r) or in %r" % (prefix, tuple(names)), "line": kf_line},
         "join_sep": {"source": repr(sep), "line": sep_line},
+        "facts": {"source": "CompoundPrior.__identifier_fields__=%r ModifiedPrior.__identifier_fields__=%r from_dict restores "
+                            "item_number=%r LogGaussianPrior.dict=%r" % (compound, modified, restores, has_dict), "line": 0},
     }
 
 
@@ -1063,8 +1120,8 @@ def gen_cases(ctx):
             fits += 1
             a = _copy.deepcopy(S)
             if a["search"]["cls"] == "DynestyStatic":      # settings dynesty accepts, small enough to finish
-                a["search"]["settings"].update(nlive=rng.choice([20, 25, 30]), bound=rng.choice(["multi", "single", "none"]),
-                                               sample=rng.choice(["auto", "unif", "rwalk"]), bootstrap=None, enlarge=None,
+                a["search"]["settings"].update(nlive=rng.choice([20, 25, 30]), bound=rng.choice(["multi", "single"]),
+                                               sample=rng.choice(["auto", "unif"]), bootstrap=None, enlarge=None,
                                                walks=rng.choice([5, 6]), facc=0.5, slices=5, fmove=0.9, max_move=100)
                 a["search"]["run"] = {"maxcall": 150}
             b = with_build(a, route="fit")
@@ -1122,6 +1179,8 @@ def oracle(c, r):
         a, b = r["a"], r["b"]
         if "raised" in a:
             return "identifier of the base fit raised %s" % a["raised"]
+        if b.get("skipped"):
+            return None
         if c["expect"] == "same":
             if "raised" in b:
                 return "equal construction (%s): %s while %s the fit's own files" % (c["how"], b["raised"], "reading" if b.get("stage") == "read" else "writing/reading")
@@ -1244,7 +1303,7 @@ def run(ctx):
     # implementation, in parallel chunks
     nchunk = max(1, min(common.NCPU, len(cases) // 40 or 1))
     chunks = [cases[i::nchunk] for i in range(nchunk)]
-    outs = common.run_impl_parallel("c07_impl", [{"cases": ch} for ch in chunks], timeout=1500)
+    outs = common.run_impl_parallel("c07_impl", [{"cases": ch} for ch in chunks], timeout=900)
     results = [None] * len(cases)
     for ci, o in enumerate(outs):
         if "__error__" in o:
@@ -1276,6 +1335,8 @@ def run(ctx):
             ctx.failure("oracle", "driver failed on the case: %s %s" % (r["exc"], r.get("msg")), c, classes=labels, impl=r)
             continue
         ok = r["ok"]
+        if c["kind"] == "pair" and ok["b"].get("skipped"):
+            ctx.hist("skipped", ok["b"]["skipped"])
         msg = oracle(c, ok)
         if msg is None and i in second_by_idx:
             o2 = second_by_idx[i].get("ok", {})
